@@ -245,8 +245,18 @@ def run(rep, tier, root=None):
             if any(isinstance(c, ast.Call) and isinstance(c.func, ast.Attribute) and c.func.attr in ("normal", "standard_normal", "random", "uniform")
                    for c in ast.walk(l)):
                 loops_with_draws.append(l)
-        lit = all(isinstance(l, ast.For) and isinstance(l.iter, ast.Call) and norm_text(l.iter.func) == "range" and
-                  all(isinstance(a, ast.Constant) for a in l.iter.args) for l in loops_with_draws)
+        from ..interp import RangeVal
+
+        def const_bounds(l):
+            """the loop's iteration space as the interpreter evaluated it (module-level constants folded) is a constant range"""
+            if isinstance(l, ast.For) and isinstance(l.iter, ast.Call) and norm_text(l.iter.func) == "range" and \
+                    all(isinstance(a, ast.Constant) for a in l.iter.args):
+                return True
+            its = [e_[3] for e_ in I.loop_log if e_[0] == f.fq and e_[1] == l.lineno]
+            if its and all(isinstance(it_, RangeVal) and all(isinstance(b_, Rat) and b_.is_const() for b_ in (it_.lo, it_.hi, it_.step)) for it_ in its):
+                return True
+            return any(u_[0] == f.fq and u_[1] == l.lineno for u_ in getattr(I, "unrolled_log", []))
+        lit = all(const_bounds(l) for l in loops_with_draws)
         rep.check(lit, "Q5.draw-count", f.fq + ": loops containing draws have literal bounds",
                   "loops with draws: %s" % [norm_text(l.iter) if isinstance(l, ast.For) else "while" for l in loops_with_draws], f.where())
         # Q6 seed forwarding
